@@ -430,4 +430,82 @@ def listRoundLeft (h : Heap) (l : Nat) : Heap := nodeMovePrevThan h (h.next l) l
 def listEraseIf (del : Nat → Bool) (h : Heap) (fuel l : Nat) : Heap × List Nat :=
   dlistForEachSafe (fun h pos => if del pos then nodeUnlink h pos else h) h fuel l
 
+/-! ## Extension round 3
+
+### every macro of igris/util/member.h and igris/util/memberxx.h at pointer level
+
+Addresses are 64-bit machine words, NULL = 0, a member is its byte offset. -/
+
+/-- `member_offsetof(type, member)` = `(size_t) &((type *)0x0)->member`, `member_offset(&T::m)` =
+`(uintptr_t) &(((Type *)0)->*member)`: the member of the object at address 0 -/
+def memberOffsetof (off : Addr) : Addr := mcastIn 0 off
+/-- `mcast_in_or_null(struct_ptr, member)`: `p ? &p->member : NULL` -/
+def mcastInOrNull (e off : Addr) : Addr := if e = 0 then 0 else e + off
+/-- `member_container(ptr, member)`: `(Type *)((char *)ptr - member_offset(member))` -/
+def memberContainer (p off : Addr) : Addr := p - memberOffsetof off
+/-- `member_sizeof(type, member)` / `sizeof(member_typeof(type, member))` for the members the lists use:
+a `dlist_head` / `dlist_node` / `hlist_node` is two pointers, a `slist_head` / `hlist_head` one pointer,
+an `int` key four bytes (LP64) -/
+def PTR_BYTES : Nat := 8
+def INT_BYTES : Nat := 4
+def DLIST_HEAD_BYTES : Nat := 2 * PTR_BYTES
+def SLIST_HEAD_BYTES : Nat := PTR_BYTES
+def HLIST_NODE_BYTES : Nat := 2 * PTR_BYTES
+def HLIST_HEAD_BYTES : Nat := PTR_BYTES
+/-- bits of the `int` counter of `dlist_size` / `slist_size` (`countInt : BitVec 32`), of the `size_t`
+counter of `circular_size` and of a pointer (`Addr`) -/
+def INT_BITS : Nat := 32
+def SIZE_T_BITS : Nat := 64
+/-- the step bound `dlist_is_correct` passes to `dlist_check` -/
+def IS_CORRECT_BOUND : Nat := 1000
+
+/-- the link field of an slist node read through a machine address -/
+def SHeap.nextA (h : SHeap) (p : Addr) : Addr := BitVec.ofNat 64 (h.next p.toNat)
+/-- `slist_first_entry(ptr, type, member)` = `slist_entry((ptr)->next, type, member)` -/
+def slistFirstEntry (h : SHeap) (head off : Addr) : Addr := mcastOut (h.nextA head) off
+/-- `slist_next_entry(pos, member)` = `slist_entry((pos)->member.next, typeof(*pos), member)` -/
+def slistNextEntry (h : SHeap) (pos off : Addr) : Addr := mcastOut (h.nextA (mcastIn pos off)) off
+/-- `hlist_first_entry(head, type, member)` = `hlist_entry((head)->first, type, member)` (plain `mcast_out`:
+NOT NULL-safe — on an empty list the result is `0 - off`) -/
+def hlistFirstEntry (h : HHeap) (l : Nat) (off : Addr) : Addr := mcastOut (ptrOf (h.first l)) off
+/-- `hlist_next_entry(pos, member)` = `hlist_entry((pos)->member.next, typeof(*pos), member)` -/
+def hlistNextEntry (h : HHeap) (pos off : Addr) : Addr := mcastOut (ptrOf (h.next (mcastIn pos off).toNat)) off
+
+/-! ### the counting loops as the C code writes them (tail recursive: `for (it = head->next; it != head;
+it = it->next) ++sz;` with the `int` counter as the loop state) -/
+
+def dlistSizeLoop (h : Heap) (head : Nat) : Nat → Nat → BitVec 32 → BitVec 32
+  | 0, _, sz => sz
+  | fuel + 1, pos, sz => if pos = head then sz else dlistSizeLoop h head fuel (h.next pos) (sz + 1)
+def dlistSizeRevLoop (h : Heap) (head : Nat) : Nat → Nat → BitVec 32 → BitVec 32
+  | 0, _, sz => sz
+  | fuel + 1, pos, sz => if pos = head then sz else dlistSizeRevLoop h head fuel (h.prev pos) (sz + 1)
+/-- `dlist_size(head)` as its loop -/
+def dlistSizeL (h : Heap) (fuel head : Nat) : Int := (dlistSizeLoop h head fuel (h.next head) 0).toInt
+/-- `dlist_size_reversed(head)` as its loop -/
+def dlistSizeReversedL (h : Heap) (fuel head : Nat) : Int := (dlistSizeRevLoop h head fuel (h.prev head) 0).toInt
+/-- `dlist_in(fnd, head)`: `dlist_for_each(it, head) if (it == fnd) return 1; return 0;` -/
+def dlistInLoop (h : Heap) (fnd head : Nat) : Nat → Nat → Bool
+  | 0, _ => false
+  | fuel + 1, pos => if pos = head then false else if pos = fnd then true else dlistInLoop h fnd head fuel (h.next pos)
+def dlistInL (h : Heap) (fuel fnd head : Nat) : Bool := dlistInLoop h fnd head fuel (h.next head)
+/-- `slist_size(head)` as its loop -/
+def slistSizeLoop (h : SHeap) (head : Nat) : Nat → Nat → BitVec 32 → BitVec 32
+  | 0, _, sz => sz
+  | fuel + 1, pos, sz => if pos = head then sz else slistSizeLoop h head fuel (h.next pos) (sz + 1)
+def slistSizeL (h : SHeap) (fuel head : Nat) : Int := (slistSizeLoop h head fuel (h.next head) 0).toInt
+/-- `circular_size()` with its `size_t` counter: `do { ++sz; n = n->next; } while (n != this)` -/
+def circSizeLoop (h : Heap) (a : Nat) : Nat → Nat → BitVec 64 → BitVec 64
+  | 0, _, sz => sz
+  | fuel + 1, n, sz => let n' := h.next n; if n' = a then sz + 1 else circSizeLoop h a fuel n' (sz + 1)
+
+/-- the ring `0 → 1 → … → n-1 → 0` in closed form (what `reset r n` builds with `dlist_add_prev(i, 0)`:
+theorem `ringHeap_is_ring`); used for long rings, where a heap of nested updates is too slow to run -/
+def ringHeap (n : Nat) : Heap :=
+  ⟨fun x => if x < n then (if x + 1 < n then x + 1 else 0) else x,
+   fun x => if x < n then (if x = 0 then n - 1 else x - 1) else x⟩
+
+/-- the wrap-around comparator the timers use on 8-bit tick counters: `(int8_t)(a - b) < 0` -/
+def wrapLess8 (a b : BitVec 8) : Bool := (a - b).toInt < 0
+
 end Igris.C01
